@@ -37,7 +37,7 @@ def run_one(pid, edits, repo_src, tier="quick"):
         env = dict(os.environ)
         env["PYVC_OUT_DIR"] = tmp
         env.setdefault("PYVC_NF_BUDGET", "300")
-        env.setdefault("PYVC_NF_TIMEOUT", "45")
+        env.setdefault("PYVC_NF_TIMEOUT", "120")
         out = subprocess.run([os.path.join(VERIF, "vc"), "check", pid, "--tier", tier, "--repo-src", dst],
                              capture_output=True, text=True, env=env, timeout=int(os.environ.get("PYVC_SELFTEST_TIMEOUT", "1500")))
         return out.returncode, out.stdout + out.stderr
